@@ -57,8 +57,9 @@ class Run(object):
     """One complete LP-mode run of the repository on a case."""
 
     def __init__(self, inst, opts, mode='eb', choices=(), noise=None, time_limit=None,
-                 hook=None, text=None, salt=0, decoy=None):
+                 hook=None, text=None, salt=0, decoy=None, presolves=0):
         self.decoy = decoy
+        self.presolves = presolves
         self.inst = inst
         self.opts = opts
         self.text = text if text is not None else refmodel.render(inst, noise)
@@ -81,6 +82,13 @@ class Run(object):
                         other.solve(msg=False, timeLimit=None, threads=None, write=False)
             except (Violation, Exception):
                 pass        # the decoy's own behaviour is not what this case checks
+        for t in range(self.presolves):
+            # earlier solve() calls on the same object (their results are not looked at)
+            with refbackend.Backend(self.backend.mode, self.backend.choices,
+                                    salt=(self.backend.salt + 13 * (t + 1)) % 60,
+                                    keep_sets=False):
+                call_repo('solve()', self.solver.solve, msg=False, timeLimit=self.time_limit,
+                          threads=None, write=False)
         with self.backend:
             call_repo('solve()', self.solver.solve, msg=False, timeLimit=self.time_limit,
                       threads=None, write=False)
@@ -107,7 +115,7 @@ def describe_case(case):
     if case.get('decoy'):
         d['decoy_argv'] = strategies.build_argv(case['decoy']['opts'], '<file>', case['inst']['na'])
         d['decoy_solved'] = bool(case['decoy'].get('solve'))
-    for k in ('choices', 'salt', 'mode', 'plan', 'ops', 'time_limit', 'kind', 'matching'):
+    for k in ('presolves', 'choices', 'salt', 'mode', 'plan', 'ops', 'time_limit', 'kind', 'matching'):
         if k in case:
             d[k] = case[k]
     return d
